@@ -462,6 +462,10 @@ def shrink_par(case):
         c['desc']['stages'][pi]['backend'] = 't'
         if _valid(c['desc']):
             yield c
+    if case.get('prelude'):
+        c = clone()
+        c.pop('prelude')
+        yield c
     if case.get('epochs', 1) > 1:
         c = clone()
         c['epochs'] = 1
